@@ -33,6 +33,30 @@ EnumManager::get_enum_definition(const std::string &enum_name) const {
     if (it != enum_definitions_.end()) {
         return &it->second;
     }
+
+    // A generic instance may be spelled differently from the registered
+    // "Result<int, string>" (e.g. "Result<int,string>"); every instance is
+    // also registered under its mangled name ("Result_int_string"), so retry
+    // with that spelling.
+    if (enum_name.find('<') != std::string::npos) {
+        std::string mangled;
+        for (char c : enum_name) {
+            if (c == '<' || c == '>' || c == ',' || c == ' ' || c == '*') {
+                if (!mangled.empty() && mangled.back() != '_') {
+                    mangled += '_';
+                }
+            } else {
+                mangled += c;
+            }
+        }
+        while (!mangled.empty() && mangled.back() == '_') {
+            mangled.pop_back();
+        }
+        it = enum_definitions_.find(mangled);
+        if (it != enum_definitions_.end()) {
+            return &it->second;
+        }
+    }
     return nullptr;
 }
 
